@@ -97,6 +97,55 @@ def parse_default_generator():
     return start, step
 
 
+def parse_versioned_update_executemany(src):
+    """persistence._emit_update_statements: `allow_executemany = A and B ...`.  Returns True when
+    versioned rows may be batched (no top-level conjunct `not needs_version_id`), False when they
+    are excluded, None when the assignment has another shape."""
+    import ast
+
+    for node in ast.walk(ast.parse(src)):
+        if isinstance(node, ast.FunctionDef) and node.name == "_emit_update_statements":
+            assigns = [
+                n for n in ast.walk(node)
+                if isinstance(n, ast.Assign) and len(n.targets) == 1 and isinstance(n.targets[0], ast.Name)
+                and n.targets[0].id == "allow_executemany"
+            ]
+            if len(assigns) != 1:
+                return None
+            v = assigns[0].value
+            conj = v.values if isinstance(v, ast.BoolOp) and isinstance(v.op, ast.And) else [v]
+
+            def excludes_versioned(e):
+                return (isinstance(e, ast.UnaryOp) and isinstance(e.op, ast.Not)
+                        and isinstance(e.operand, ast.Name) and e.operand.id == "needs_version_id")
+
+            return not any(excludes_versioned(e) for e in conj)
+    return None
+
+
+def parse_savepoint_rollback_expiry(src):
+    """session.SessionTransaction._restore_snapshot: the states expired when a SAVEPOINT is rolled
+    back (dirty_only=True).  Returns True when the function expires states (calls `._expire(`) and
+    some condition inside it reads `<state>.modified`, False when `._expire(` is called but no
+    condition mentions `.modified`, None when no expiry is found at all."""
+    import ast
+
+    for node in ast.walk(ast.parse(src)):
+        if isinstance(node, ast.FunctionDef) and node.name == "_restore_snapshot":
+            expires = any(isinstance(n, ast.Call) and isinstance(n.func, ast.Attribute) and n.func.attr == "_expire"
+                          for n in ast.walk(node))
+            if not expires or not any(isinstance(a, ast.arg) and a.arg == "dirty_only" for a in node.args.args):
+                return None
+            tests = []
+            for n in ast.walk(node):
+                if isinstance(n, (ast.If, ast.IfExp, ast.While)):
+                    tests.append(n.test)
+                elif isinstance(n, ast.comprehension):
+                    tests.extend(n.ifs)
+            return any(isinstance(a, ast.Attribute) and a.attr == "modified" for t in tests for a in ast.walk(t))
+    return None
+
+
 def gen(ctx):
     """Translator: the default version_id_generator lambda of orm/mapper.py and the
     shape of the was_already_deleted branch of persistence._organize_states_for_save
@@ -134,8 +183,22 @@ def gen(ctx):
         keeps is not None,
         "row-switch detection has another shape; the model's Act.insDel branch cannot be regenerated",
     )
-    if start is None or keeps is None:
+    batched = parse_versioned_update_executemany(src)
+    ctx.obligation(
+        "translator: persistence._emit_update_statements assigns `allow_executemany = <conjunction>` exactly once",
+        batched is not None,
+        "assignment not found or of another shape; the model's per-record / per-batch postfetch switch cannot be regenerated",
+    )
+    sess_src = open(os.path.join(vlib.REPO, "lib", "sqlalchemy", "orm", "session.py")).read()
+    expmod = parse_savepoint_rollback_expiry(sess_src)
+    ctx.obligation(
+        "translator: SessionTransaction._restore_snapshot expires states under a recognisable condition over dirty_only / s.modified / self._dirty",
+        expmod is not None,
+        "expiry loop not found or of another shape; the model's savepoint-rollback expiry set cannot be regenerated",
+    )
+    if start is None or keeps is None or batched is None or expmod is None:
         return
+    B = lambda b: "true" if b else "false"
     ctx.write_gen(
         "VersionCfg",
         "namespace SaVerif.Gen.VersionCfg\n"
@@ -145,7 +208,14 @@ def gen(ctx):
         "/-- orm/persistence.py `_organize_states_for_save`: when `was_already_deleted(existing)`\n"
         "    is true the expired state stays registered for DELETE (no `remove_state_actions`) -/\n"
         "def rowSwitchVanishedKeepsDelete : Bool := %s\n"
-        "end SaVerif.Gen.VersionCfg\n" % (start, step, start, step, "true" if keeps else "false"),
+        "/-- orm/persistence.py `_emit_update_statements`: `allow_executemany = ...` does NOT carry the\n"
+        "    conjunct `not needs_version_id`, i.e. versioned rows of one group go out as ONE executemany\n"
+        "    UPDATE and every record is post-fetched from `compiled_parameters[0]` (the first record) -/\n"
+        "def versionedUpdateExecutemany : Bool := %s\n"
+        "/-- orm/session.py `SessionTransaction._restore_snapshot(dirty_only=True)` (SAVEPOINT rollback):\n"
+        "    the expiry condition mentions `s.modified` (modified-but-unflushed states are expired) -/\n"
+        "def savepointRollbackExpiresModified : Bool := %s\n"
+        "end SaVerif.Gen.VersionCfg\n" % (start, step, start, step, B(keeps), B(batched), B(expmod)),
     )
 
 
@@ -327,6 +397,8 @@ def _run_history(case):
     lost_flag = False
     reins_flag = False
     sess_index = {id(s): i for i, s in enumerate(sessions)}
+    spx = [None] * nsess  # open SAVEPOINT (SessionTransaction of begin_nested) per session
+    modk = [set() for _ in range(nsess)]  # rows whose persistent object was assigned to since the last flush / expire
 
     def listener(target, attrs):
         st = inspect(target)
@@ -370,6 +442,10 @@ def _run_history(case):
             for op in ops:
                 kind, s = op[0], op[1]
                 sess = sessions[s]
+                if any(spx[t] is not None for t in range(nsess) if t != s):
+                    # a session inside a SAVEPOINT holds SQLite locks until its transaction ends:
+                    # the generators keep such episodes contiguous
+                    raise ValueError("ill-formed history: op %s while another session has an open SAVEPOINT" % (op,))
                 if kind == "g":
                     k = op[2]
                     o = pers[s].get(k)
@@ -397,6 +473,7 @@ def _run_history(case):
                         o = pers[s][k]
                         b = base[s].get(k, BLIND)
                         o.val = v
+                        modk[s].add(k)
                         if b is BLIND or b != v:
                             intent[s][k] = ("val", v)
                         else:
@@ -434,6 +511,7 @@ def _run_history(case):
                     k = op[2]
                     if k in pers[s] and k not in pend[s] and pers[s][k] not in sess.deleted:
                         sess.expire(pers[s][k])
+                        modk[s].discard(k)
                         intent[s].pop(k, None)
                         seen[s].pop(k, None)
                         base[s].pop(k, None)
@@ -447,15 +525,38 @@ def _run_history(case):
                         clear_shadow(s)
                     else:
                         sess.rollback()
+                    spx[s] = None
+                    modk[s].clear()
                     outs.append("d")
+                elif kind == "n":
+                    # begin_nested() flushes first: only on a session with nothing to flush
+                    if spx[s] is not None or sess.new or sess.dirty or sess.deleted:
+                        outs.append("-")
+                    else:
+                        spx[s] = sess.begin_nested()
+                        outs.append("d")
                 elif kind in ("c", "f"):
                     before = db
                     had_txn = sess.in_transaction()
                     plan = dict(intent[s])
                     seen_before = dict(seen[s])
+                    insp = spx[s] is not None and kind == "c"
+
+                    def recover():
+                        if insp:
+                            # the application catches the error, gives up the SAVEPOINT only and
+                            # goes on with (here: commits) the enclosing transaction
+                            spx[s].rollback()
+                            sess.commit()
+                        else:
+                            sess.rollback()
+
                     try:
                         if kind == "c":
-                            if case.get("flushfirst"):
+                            if insp:
+                                sess.flush()  # inside the SAVEPOINT
+                                spx[s].commit()  # RELEASE
+                            elif case.get("flushfirst"):
                                 sess.flush()
                             sess.commit()
                         else:
@@ -463,13 +564,13 @@ def _run_history(case):
                             sess.rollback()
                         outcome = "ok"
                     except StaleDataError:
-                        sess.rollback()
+                        recover()
                         outcome = "stale"
                     except IntegrityError:
-                        sess.rollback()
+                        recover()
                         outcome = "integrity"
                     except ObjectDeletedError:
-                        sess.rollback()
+                        recover()
                         outcome = "gone"
                     except Exception as e:  # any other exception out of a flush of valid state is a defect
                         outcome = "error-" + type(e).__name__
@@ -478,6 +579,7 @@ def _run_history(case):
                             sess.rollback()
                         except Exception:
                             pass
+                    spx[s] = None
                     after = w.rows()
                     # ------------------------------------------------ reference oracle
                     changed = [k for k in set(before) | set(after) if before.get(k) != after.get(k)]
@@ -539,6 +641,19 @@ def _run_history(case):
                             for k in changed:
                                 if k not in plan:
                                     problems.append(("unintended-row-changed", "row %d: %s -> %s" % (k, before.get(k), after.get(k))))
+                            if not eoc:
+                                # the writer goes on with the objects it has: each must carry the version its
+                                # own UPDATE / INSERT stored (else its next flush is spuriously stale, or
+                                # overwrites a later change of somebody else unseen)
+                                for k, it in plan.items():
+                                    o = pend[s].get(k)  # not yet pruned: the object just inserted / switched in
+                                    if o is None:  # (instances are falsy: no `or`)
+                                        o = pers[s].get(k)
+                                    if it[0] != "del" and k in after and o is not None and "ver" in o.__dict__:
+                                        if o.__dict__["ver"] != after[k][1]:
+                                            problems.append(("writer-version-differs-from-row-after-commit",
+                                                             "session %d row %d: object carries version %s, its row was written with %s (flush of rows %s)"
+                                                             % (s, k, o.__dict__["ver"], after[k][1], sorted(plan))))
                     else:
                         just = {"stale": stale_k or gone_k, "integrity": dup_k, "gone": gone_k}.get(outcome, True)
                         if not just:
@@ -572,8 +687,19 @@ def _run_history(case):
                         if eoc:
                             seen[s].clear()
                             base[s].clear()
+                    elif outcome != "ok" and insp:
+                        # SAVEPOINT rolled back: pending objects expunged, deletions reverted, the
+                        # assigned-to objects expired; untouched objects stay as loaded
+                        intent[s].clear()
+                        for k in modk[s]:
+                            seen[s].pop(k, None)
+                            base[s].pop(k, None)
+                        if eoc:
+                            seen[s].clear()
+                            base[s].clear()
                     elif outcome != "ok" or had_txn:
                         clear_shadow(s)
+                    modk[s].clear()
                     outs.append(outcome + showdb(after))
                 else:
                     raise ValueError(op)
@@ -659,12 +785,96 @@ def gen_random(rng, tier):
             ops.append(("f", s))
         else:
             ops.append(("r", s))
+    if rng.random() < 0.3:
+        # a SAVEPOINT episode of one session: contiguous (the session holds SQLite locks meanwhile)
+        pos = rng.randrange(len(ops) // 2, len(ops) + 1)
+        ops[pos:pos] = sp_episode(rng, rng.randrange(nsess), npk)
     # make pending work visible: everybody commits at the end
     order = list(range(nsess))
     rng.shuffle(order)
     for s in order:
         ops.append(("c", s))
     return nsess, npk, ops
+
+
+def sp_episode(rng, s, npk):
+    """[commit,] begin_nested, a few in-memory ops of the same session, then flush inside the
+    SAVEPOINT + commit (mostly) / flush + rollback / rollback"""
+    ep = [("c", s)] if rng.random() < 0.6 else []
+    ep.append(("n", s))
+    for _ in range(rng.randint(1, 3)):
+        k = rng.randrange(npk)
+        r = rng.random()
+        if r < 0.5:
+            ep.append(("s", s, k, rng.randint(7, 9)))
+        elif r < 0.65:
+            ep.append(("d", s, k))
+        elif r < 0.8:
+            ep.append(("a", s, k, rng.randint(4, 6)))
+        elif r < 0.9:
+            ep.append(("g", s, k))
+        else:
+            ep.append(("x", s, k))
+    ep.append(rng.choice([("c", s)] * 8 + [("f", s), ("r", s)]))
+    if rng.random() < 0.5:
+        ep.append(("c", s))  # the session goes on: nothing of a rejected flush may come back
+    return ep
+
+
+def gen_batch(rng, tier):
+    """flushes that write SEVERAL rows whose version counters differ, by sessions that keep
+    using their objects afterwards (second flush without reload: expire_on_commit off, mostly)"""
+    nsess = rng.choice([2, 2, 3])
+    npk = rng.choice([2, 3, 3, 4])
+    val = itertools.count(10)
+    ops = [("a", 0, k, 0) for k in range(npk)] + [("c", 0)]
+    # stagger the version counters with single-row commits
+    for k in range(npk):
+        for _ in range(rng.choice([0, 0, 1, 2])):
+            ops += [("s", 0, k, next(val)), ("c", 0)]
+    for s in range(1, nsess):
+        ops += [("g", s, k) for k in range(npk) if rng.random() < 0.8]
+    for _ in range(rng.randint(1, 3 if tier == "quick" else 5)):
+        wr = rng.randrange(nsess)
+        ks = [k for k in range(npk) if rng.random() < 0.75] or [rng.randrange(npk)]
+        for k in ks:
+            if rng.random() < 0.4:
+                ops.append(("g", wr, k))
+            r = rng.random()
+            if r < 0.85:
+                ops.append(("s", wr, k, next(val)))
+            elif r < 0.92:
+                ops.append(("d", wr, k))
+            else:
+                ops += [("d", wr, k), ("a", wr, k, next(val))]
+        if rng.random() < 0.2:
+            ops.append(("n", wr))  # skipped ("-") on both sides when there is something to flush
+        ops.append(("c", wr))
+        # what the writer now holds in memory
+        ops += [("g", wr, k) for k in ks if rng.random() < 0.7]
+        # somebody else moves some of these rows on; the writer, unaware, writes them again
+        ot = rng.choice([t for t in range(nsess) if t != wr])
+        for k in rng.sample(ks, min(len(ks), rng.choice([1, 1, 2]))):
+            for _ in range(rng.choice([1, 1, 2])):
+                ops += [("g", ot, k), ("s", ot, k, next(val)), ("c", ot)]
+        if rng.random() < 0.7:
+            ops += [("s", wr, k, next(val)) for k in ks if rng.random() < 0.6] + [("c", wr)]
+    order = list(range(nsess))
+    rng.shuffle(order)
+    for s in order:
+        ops.append(("c", s))
+    return nsess, npk, ops
+
+
+def small_scope_sp(length):
+    """SAVEPOINT episodes of session 1 on one row that session 0 has / has not changed or deleted
+    meanwhile: every sequence of `length` in-memory ops inside the SAVEPOINT, flush inside it,
+    then the session goes on"""
+    alpha = [("g", 1, 0), ("s", 1, 0, 3), ("d", 1, 0), ("a", 1, 0, 6), ("x", 1, 0)]
+    for bump in ([], [("s", 0, 0, 2), ("c", 0)], [("d", 0, 0), ("c", 0)]):
+        for seq in itertools.product(alpha, repeat=length):
+            for close in (("c", 1), ("f", 1)):
+                yield [("a", 0, 0, 1), ("c", 0), ("g", 1, 0)] + bump + [("n", 1)] + list(seq) + [close, ("c", 1), ("g", 1, 0), ("c", 0)]
 
 
 def small_scope(length):
@@ -686,7 +896,7 @@ def gen_cases(ctx, deep=False):
         yield {"variant": variant, "eoc": 0, "npk": 1, "nsess": 2, "ops": ABA_OPS, "src": "aba"}
         yield {"variant": variant, "eoc": 0, "npk": 1, "nsess": 2, "ops": INSDEL_OPS, "src": "insdel"}
     yield {"variant": "fresh", "eoc": 0, "npk": 1, "nsess": 2, "ops": ABA_OPS, "src": "aba"}
-    nrand = 2400 if thorough else 700
+    nrand = 2400 if thorough else 560
     for i in range(nrand):
         nsess, npk, ops = gen_random(ctx.rng, ctx.tier)
         for variant in VARIANTS:
@@ -694,6 +904,16 @@ def gen_cases(ctx, deep=False):
                 continue
             yield {"variant": variant, "eoc": ctx.rng.choice([0, 0, 1]), "npk": npk, "nsess": nsess, "ops": ops,
                    "flushfirst": ctx.rng.random() < 0.2, "src": "random"}
+    for i in range(800 if thorough else 110):
+        nsess, npk, ops = gen_batch(ctx.rng, ctx.tier)
+        for variant in VARIANTS:
+            if not thorough and ctx.rng.random() < 0.6:
+                continue
+            yield {"variant": variant, "eoc": ctx.rng.choice([0, 0, 0, 1]), "npk": npk, "nsess": nsess, "ops": ops,
+                   "flushfirst": ctx.rng.random() < 0.2, "src": "batch"}
+    for seq in small_scope_sp(2 if thorough else 1):
+        for variant in VARIANTS if thorough else (ctx.rng.choice(VARIANTS),):
+            yield {"variant": variant, "eoc": ctx.rng.choice([0, 1]), "npk": 1, "nsess": 2, "ops": seq, "src": "savepoint"}
     length = 3 if thorough else 2
     for seq in small_scope(length):
         for variant in VARIANTS if thorough else (ctx.rng.choice(VARIANTS),):
